@@ -21,6 +21,13 @@ func init() {
 				for _, m := range []int{8, 12, 14} {
 					js = append(js, Job{Dir: "codec", Harness: "VH_C04_decode_two", Params: map[string]int{"M": m, "codec": codec}, Weight: m + 5})
 				}
+				hm := []int{8, 10, 13}
+				if tier == "thorough" {
+					hm = []int{8, 9, 10, 11, 12, 13, 14, 16}
+				}
+				for _, m := range hm {
+					js = append(js, Job{Dir: "codec", Harness: "VH_C04_history", Params: map[string]int{"M": m, "codec": codec}, Weight: m * 4, MaxPaths: 40000})
+				}
 				bm := []int{0, 3, 4, 6, 10}
 				if tier == "thorough" {
 					bm = []int{0, 1, 2, 3, 4, 5, 6, 8, 10, 12}
@@ -31,7 +38,9 @@ func init() {
 						if tier == "thorough" {
 							chunks = 5
 						}
-						js = append(js, Job{Dir: "codec", Harness: "VH_C04_blocked", Params: map[string]int{"M": m, "codec": codec, "fault": fault, "chunks": chunks}, Weight: m * 3, MaxPaths: 40000})
+						for dataerr := 0; dataerr <= 1; dataerr++ {
+							js = append(js, Job{Dir: "codec", Harness: "VH_C04_blocked", Params: map[string]int{"M": m, "codec": codec, "fault": fault, "chunks": chunks, "dataerr": dataerr}, Weight: m * 3, MaxPaths: 40000})
+						}
 					}
 				}
 			}
@@ -42,9 +51,10 @@ func init() {
 		Bounds: map[string]string{
 			"Decode":        "one step from an arbitrary reader state: buffer of M octets (quick M in {0,3,4,8,12} after a cursor of 0 or 3; thorough up to 24), every octet and the number of arrived octets symbolic; the 32-bit length prefix is therefore symbolic over all values",
 			"two frames":    "two consecutive frames in one buffer of 8/12/14 octets, both prefixes symbolic",
-			"DecodeBlocked": "streams of M octets (quick M <= 10, thorough <= 12) ending (EOF) or failing at every offset, the first 3 (thorough 5) reads returning arbitrary chunk sizes; declared lengths up to M+2",
+			"history":       "one codec value polled after each of three arrivals (a1 <= a2 <= M, symbolic) over a stream that is exactly two frames of symbolic lengths, M in {8,10,13} (thorough 8..16): frames come out once, in order, as soon as complete",
+			"DecodeBlocked": "the end/fault reported either by a separate empty Read or together with the last octets (both reader behaviours); streams of M octets (quick M <= 10, thorough <= 12) ending (EOF) or failing at every offset, the first 3 (thorough 5) reads returning arbitrary chunk sizes; declared lengths up to M+2",
 		},
 		Outside: []string{"real sockets", "frames longer than the modelled stream in the blocking reader (its allocation of the declared length is the frame itself)", "prefix >= 2^31 on 32-bit platforms"},
-		Assumptions: []string{"the codec structs are stateless (no fields), so one step from an arbitrary reader state covers every arrival history"},
+		Assumptions: []string{"one step from an arbitrary reader state covers every arrival history only while the codec structs keep no state between calls; the history jobs drop that assumption for two-frame streams"},
 	})
 }
